@@ -163,6 +163,18 @@ theorem runPatch_of_section (ho : FileOpts o pname) (hs0 : CleanStart s0) (hpn :
   have : s'.hadFailure = false := by rw [hdone.hadFailure]; exact hs0.noFailure
   rw [this]; rfl
 
+/-- **the patch file is only read**: a patch file (`-i pname`) whose mode lacks the owner-read bit, for a user who is not root,
+    cannot be opened — exit status 2 and nothing at all has happened.  That bit (or root) is all that is asked since the model
+    change "the patch is opened for reading only" (`Run.run_processPatchM_readable`; a read-only patch file used to be refused for
+    want of the write bit): the theorems below hold for every mode `pm` of the patch file. -/
+theorem patch_file_unreadable (o : Options) (s0 : DState) (pname ptext : Bytes) (pm : Nat) (ho : FileOpts o pname)
+    (hpn : pname ≠ []) (hpd : pname ≠ [45]) (hcwd : s0.cwd = []) (hpatch : s0.fs.lookup pname = some (.file ptext pm))
+    (hroot : s0.fs.isRoot = false) (hmode : pm / 256 % 2 ≠ 1) :
+    runPatch o s0 = (2, s0) := by
+  have h := run_processPatchM_unreadable o s0 pname ptext pm ho.noDir ho.patchFile hpn hpd hcwd hpatch hroot hmode
+  unfold runPatch
+  simp only [ho.noHelp, ho.noVersion, Bool.or_false, Bool.false_eq_true, if_false, h]
+
 /-- **C01, the whole program on the text of a unified diff** (inert filler allowed in front of the header; the names in the
     header need not be the operand's; the target may sit in a directory of the tree) -/
 theorem C01_run_filler (ho : RunOpts o name pname) (hreal : o.dryRun = false) (hs0 : CleanStart s0)
@@ -605,6 +617,7 @@ end PatchModel.C01
 #print axioms PatchModel.C01.FirstLineLooksLikeHeader.applies
 #print axioms PatchModel.C01.FirstLineLooksLikeHeader.applies_single
 #print axioms PatchModel.C01.FirstLineLooksLikeHeader.applies'
+#print axioms PatchModel.C01.patch_file_unreadable
 #print axioms PatchModel.C01.C01_run_filler
 #print axioms PatchModel.C01.C15_run_dry_filler
 #print axioms PatchModel.C01.C01_run
